@@ -75,6 +75,11 @@ def _occ(ch, p: Proto, cfg) -> tuple:
                 # a message between two external parties: invisible to Fandango (sliced away)
                 rcp = ch.pick([e for e in p.externals if e != snd], "spec", "ext-rcp")
         p.meta.setdefault("pairs", set()).add((name, snd, rcp))
+    ov = p.meta.get("overlap")
+    if ov and name in ov and (snd, rcp) == (m["sender"], m["recipient"]) and ch.coin(0.7, "spec", "overlap-alt"):
+        # both prefix-overlapping message types are expected at this point: only the rest of the
+        # remote data tells which one the peer is sending
+        return ("alt", (("nt", ov[0], snd, rcp), ("nt", ov[1], snd, rcp)))
     return ("nt", name, snd, rcp)
 
 
@@ -203,7 +208,7 @@ def gen_protocol(ch, cfg: dict) -> Proto:
         p = _gen_protocol_once(ch, cfg)
         feats = non_plain_features(p)
         p.meta["non_plain"] = feats
-        if wild or not feats:
+        if wild or not feats or p.meta.get("routed"):
             break
     return p
 
@@ -221,7 +226,8 @@ def _gen_protocol_once(ch, cfg: dict) -> Proto:
     if len(p.externals) == 2 and ch.coin(0.25, "spec", "ez"):
         p.externals.append("Ez")
     n_types = ch.rng_range(3, cfg.get("max_types", 7), "spec", "ntypes")
-    kws = ch.shuffle(KEYWORDS, "spec", "kw")[:n_types]
+    all_kws = ch.shuffle(KEYWORDS, "spec", "kw")
+    kws = all_kws[:n_types]
     # make sure both directions exist
     for i, kw in enumerate(kws):
         name = "m%d" % i
@@ -256,6 +262,33 @@ def _gen_protocol_once(ch, cfg: dict) -> Proto:
             m["field"] = field
         p.rules[name] = body
         p.msg_types[name] = m
+    if ch.coin(cfg.get("prefix_overlap_rate", 0.2), "spec", "prefix-overlap"):
+        # two message types of one external party where every text of the first is a proper prefix
+        # of a text of the second (<pong> ::= 'PONG\n' next to <pong_ext> ::= 'PONG\n' '+MORE\n'):
+        # a complete parse of the short type can still be extended by data that arrives later
+        ka, kb = all_kws[n_types], all_kws[n_types + 1]
+        snd_ = ch.pick(p.externals, "spec", "overlap-snd")
+        rcp_ = ch.pick(p.fuzzers, "spec", "overlap-rcp")
+        na, nb = "m%d" % n_types, "m%d" % (n_types + 1)
+        p.rules[na] = ("cat", (("lit", ka), ("lit", "\n")))
+        p.rules[nb] = ("cat", (("lit", ka), ("lit", "\n"), ("lit", "+" + kb), ("lit", "\n")))
+        for n_ in (na, nb):
+            p.msg_types[n_] = {"kw": ka, "sender": snd_, "recipient": rcp_, "form": 0, "field": None}
+        p.meta["overlap"] = (na, nb)
+    routed = None
+    if len(p.externals) >= 2 and ch.coin(cfg.get("routed_rate", 0.08), "spec", "routed-request"):
+        # one request type that the fuzzer may address to either of two servers, each answering with
+        # its own reply type: <Fz:Ex:req> <Ex:Fz:ra> | <Fz:Ey:req> <Ey:Fz:rb>
+        req = sorted(n for n, m in p.msg_types.items() if m["sender"] in p.fuzzers)[0]
+        base = n_types + 2
+        reps = []
+        for j, e in enumerate(p.externals[:2]):
+            nm = "m%d" % (base + j)
+            kw = all_kws[base + j]
+            p.rules[nm] = ("cat", (("lit", kw), ("lit", "\n")))
+            p.msg_types[nm] = {"kw": kw, "sender": e, "recipient": p.msg_types[req]["sender"], "form": 0, "field": None}
+            reps.append(nm)
+        routed = (req, reps)
     # numeric-field constraints the peers can knowingly satisfy or violate
     for name, m in p.msg_types.items():
         if m["form"] in (1, 3) and ch.coin(cfg.get("constraint_rate", 0.5), "spec", "cons"):
@@ -277,6 +310,16 @@ def _gen_protocol_once(ch, cfg: dict) -> Proto:
             node = ("alt", (node, ("cat", (_visible_occ(ch, p, cfg), ("nt", name)))))
         p.rules[name] = node
         built.append(name)
+    if routed:
+        req, reps = routed
+        fz = p.msg_types[req]["sender"]
+        tail = (("nt", names[1]),) if len(names) > 1 and ch.coin(0.4, "spec", "routed-tail") else ()
+        alts = []
+        for e, rp in zip(p.externals[:2], reps):
+            alts.append(("cat", (("nt", req, fz, e), ("nt", rp, e, fz)) + tail))
+            p.meta.setdefault("pairs", set()).add((req, fz, e))
+        p.rules["start"] = ("alt", tuple(alts))
+        p.meta["routed"] = True
     reach = G.reachable(p)
     p.state_rules = [n for n in names if n in reach]
     ordered = {n: p.rules[n] for n in p.state_rules}
@@ -470,6 +513,26 @@ def has_adjacent_nullables(p: Proto) -> bool:
         return False
 
     return any(walk(p.rules[r]) for r in p.state_rules)
+
+
+def occurrences(p: Proto) -> list:
+    """All message occurrences (sender, recipient, type) of the state rules, sorted."""
+    out: set = set()
+
+    def walk(n):
+        k = n[0]
+        if k == "nt":
+            if p.is_msg(n):
+                out.add((n[2], n[3], n[1]))
+        elif k in ("cat", "alt"):
+            for x in n[1]:
+                walk(x)
+        elif k in ("star", "plus", "opt", "rep"):
+            walk(n[1])
+
+    for r in p.state_rules:
+        walk(p.rules[r])
+    return sorted(out)
 
 
 def reuses_types(p: Proto) -> bool:
